@@ -125,8 +125,16 @@ def routing(ctx):
         if isinstance(s, ast.If):
             for t, body in _chain(s):
                 if t is not None and ast.unparse(t) == "isinstance(other, str)":
-                    bsrc = [ast.unparse(x) for x in body]
-                    ok = any("Path(self) + other" in x for x in bsrc)
+                    for x in body:
+                        for n in ast.walk(x):
+                            # Path(<self or a copy of self>) + other   /   p = Path(..self..); p += other / p.parse(other)
+                            if isinstance(n, ast.BinOp) and isinstance(n.op, ast.Add) and call_name(n.left) == "Path" and ast.unparse(n.right) == "other" \
+                                    and any(isinstance(a, ast.Name) and a.id == "self" for a in ast.walk(n.left)):
+                                ok = True
+                            if isinstance(n, ast.Call) and isinstance(n.func, ast.Attribute) and n.func.attr == "parse" and ast.unparse(n.args[0]) == "other":
+                                ok = True
+                            if isinstance(n, ast.AugAssign) and isinstance(n.op, ast.Add) and ast.unparse(n.value) == "other":
+                                ok = True
     ctx.ob("R17.3", "PathSegment.__iadd__[str]", ok, "", ps.lineno, "segment + string = Path(segment) + string")
     cls = ctx.m.cls("PathSegment")
     ctx.ob("R17.3", "PathSegment.__add__ alias", cls.aliases.get("__add__") == "__iadd__", str(cls.aliases.get("__add__")), cls.node.lineno, "")
